@@ -1,4 +1,4 @@
-CONSTANTS B = 3  Bufs = {2, 99}  Paths = {"A", "B"}  WithTrunc = TRUE  WithCorrupt = TRUE  FixSeek = TRUE  FixTrunc = TRUE
+CONSTANTS B = 3  Bufs = {2, 99}  Paths = {"A", "B"}  WithTrunc = TRUE  WithCorrupt = TRUE  FixSeek = TRUE  FixData = TRUE  FixHdr = TRUE
 CONSTANT Shapes <- ShapesQuick
 SPECIFICATION Spec
 VIEW View
